@@ -98,6 +98,19 @@ def draw_case(rng: numpy.random.Generator, small: bool = True, force: Optional[d
             # well inside the default residual tolerance; the filling (a least-squares compromise) must still be applied
             noisy = True
             ds.static_table[:, -n_extra:] += rng.uniform(0.02, 0.12, size=(nv, n_extra)) * rng.choice([-1.0, 1.0], size=(nv, n_extra))
+    # ---- order of the rows of the static table: the reader takes the rows as listed and nothing requires them to be sorted (only
+    #      the PHONON file must list decreasing volumes); the lattice block, when present, is listed in the same order as the rows
+    static_rows = force.get("static_rows", "listed")
+    if static_rows != "listed":
+        sv = numpy.array(ds.volumes if ds.static_volumes is None else ds.static_volumes, dtype=float)
+        if static_rows == "increasing":
+            p_rows = numpy.argsort(sv)
+        else:
+            p_rows = rng.permutation(len(sv))
+            if (numpy.diff(sv[p_rows]) < 0).all() or (numpy.diff(sv[p_rows]) > 0).all():
+                p_rows = numpy.roll(numpy.argsort(sv), 2)            # neither decreasing nor increasing
+        ds.static_volumes = sv[p_rows]; ds.static_table = ds.static_table[p_rows]
+        if ds.lattice is not None: ds.lattice = ds.lattice[p_rows]
     # ---- Γ acoustic branches: zero / slightly negative (synth default) or small POSITIVE and smooth in V, as written by DFPT
     #      codes without an exact acoustic sum rule; cij's phonon part skips these three slots either way, the QHA layer counts them
     acoustic = force.get("acoustic", "positive" if rng.random() < 0.25 else "nonpositive")
@@ -128,7 +141,7 @@ def draw_case(rng: numpy.random.Generator, small: bool = True, force: Optional[d
     ds.settings["elast"]["settings"]["mode_gamma"] = {"interpolator": "lsq_poly",
                                                       "order": int(min(3, max(1, nv - 2)))}
     desc = {"nv": nv, "nq": nq, "na": na, "system": system, "lattice": lattice, "nkeys": len(ds.static_keys), "redundant_keys": n_extra, "redundant_noisy": noisy,
-            "static_mesh": static_mesh, "law": law, "acoustic": acoustic,
+            "static_mesh": static_mesh, "static_rows": static_rows, "law": law, "acoustic": acoustic,
             "NT": nt, "DT": dt, "NTV": ntv, "volume_ratio": ratio, "P_MIN": p_min, "DELTA_P": dp,
             "p_last_est_gpa": p_last_gpa}
     return ds, desc
